@@ -8,7 +8,7 @@ from prog_registry import RegistryProgram, oracle_registry
 from prog_children import ChildrenProgram, oracle_children
 from prog_broker import BrokerProgram, oracle_broker
 from prog_mailbox import (oracle_containment, oracle_owning, MailboxProgram, oracle_fifo, oracle_own_result, oracle_resolves, oracle_stop_barrier,
-                          oracle_backpressure, oracle_handles, oracle_liveness_flags)
+                          oracle_backpressure, oracle_handles, oracle_liveness_flags, oracle_lifecycle, oracle_stream)
 
 
 def mailbox_programs(tier):
@@ -18,7 +18,7 @@ def mailbox_programs(tier):
 
     def add(name, cap, scripts, hp=0, tag='q', **kw):
         d = dict(name=name, cap=cap, scripts=scripts, hp=hp, tag=tag, pre=(), started_actions=(), strategy='RestartOnly',
-                 faults=0, max_clock=None, K=None, max_steps=60, started=None, owning=False, registry=False, mt=False, children=(), broker=None, entry=None)
+                 faults=0, max_clock=None, K=None, max_steps=60, started=None, owning=False, registry=False, mt=False, children=(), broker=None, entry=None, fault_targets=None, stream=False)
         d.update(kw)
         P.append(d)
     # FIFO across paths and clients, own result, stop barrier
@@ -66,6 +66,11 @@ def mailbox_programs(tier):
         else:
             sc = [('entry', ep), ('call', A, 'a1'), ('restart', A), ('call', A, 'a2'), ('stop', A), ('await', A)]
         add('strategy_' + ep, None, {'c1': sc}, entry=ep, strategy=strat, K=1)
+    # stream-attached actors (C13; also C03 lifecycle with finished): the stream is a queue fed by a producer task
+    add('stream_items_then_end', None, {'prod': [('feed', 'i1'), ('feed', 'i2'), ('end_stream',)], 'c1': [('call', A, 'a1'), ('await', A)]}, stream=True, K=1, strategy='NonRestartable')
+    add('stream_stop_never_ends', None, {'prod': [('feed', 'i1')], 'c1': [('send', A, 'a1'), ('stop', A), ('await', A)]}, stream=True, K=2, strategy='NonRestartable')
+    add('stream_last_drop', None, {'prod': [('feed', 'i1'), ('feed', 'i2')], 'c1': [('send', A, 'a1'), ('drop', A)]}, stream=True, K=1, strategy='NonRestartable')
+    add('stream_pending_handlers_bounded', 1, {'prod': [('feed', 'i1'), ('end_stream',)], 'c1': [('send', A, 'a1'), ('send', A, 'a2')]}, 1, stream=True, K=2, strategy='NonRestartable', tag='t')
     # OwningAddr (C17; join futures also serve C02 'everything resolves')
     O = 'o'
     add('own_join_twice', None, {'c1': [('o_call', O, 'a1'), ('to_addr', O, 'a'), ('stop', 'a'), ('join', O), ('join', O)]}, owning=True)
@@ -100,6 +105,7 @@ def mailbox_programs(tier):
     add('registry_concurrent_lookup_mt', None, {'c1': [('from_registry', 'a'), ('call', 'a', 'm1')], 'c2': [('from_registry', 'b'), ('call', 'b', 'm2')]}, registry=True, mt=True, K=3)
     add('registry_lookup_vs_register_mt', None, {'c1': [('from_registry', 'a')], 'c2': [('spawn', 'x'), ('register', 'x')]}, registry=True, mt=True, K=3)
     add('registry_lookup_vs_register', None, {'c1': [('from_registry', 'a')], 'c2': [('spawn', 'x'), ('register', 'x')], 'c3': [('try_from_registry',), ('already_running',)]}, registry=True, K=3)
+    add('registry_service_killed', None, {'c1': [('from_registry', 'a'), ('call', 'a', 'm1'), ('from_registry', 'b'), ('call', 'b', 'm2'), ('already_running',), ('try_from_registry',)]}, registry=True, faults=1, fault_targets=('loop1',), K=2)
     add('registry_respawn_race', None, {'c1': [('from_registry', 'a'), ('stop', 'a'), ('from_registry', 'b')], 'c2': [('from_registry', 'c'), ('ping', 'c')]}, registry=True, K=3, tag='t')
     return [p for p in P if tier == 'thorough' or p['tag'] == 'q']
 
@@ -107,6 +113,10 @@ def mailbox_programs(tier):
 def evaluate(tr, status, cap, scripts, spec=None):
     """all oracles on one trace -> {pid: [messages]} (cap: None | int)"""
     out = {k: [] for k in PIDS}
+    multi = spec is not None and (spec.get('broker') or spec.get('children') or spec.get('registry'))
+    if not (spec is not None and spec.get('broker')):
+        # (broker programs: the subscribing started() is driven as the Context::subscribe coroutine, its completion is not an event)
+        out['C03'] += oracle_lifecycle(tr, single=not multi)
     if spec is not None and spec.get('broker'):
         out['C09'] += oracle_broker(tr, status, dict(spec['broker'], scripts=scripts))
         out['C02'] += oracle_resolves(tr, status, scripts)
@@ -127,7 +137,11 @@ def evaluate(tr, status, cap, scripts, spec=None):
             out['C17'] += oracle_owning(tr, status, scripts)
         return out
     if spec is not None and spec.get('registry'):
-        out['C08'] += oracle_registry(tr, status, scripts)
+        reg = oracle_registry(tr, status, scripts)
+        out['C08'] += reg
+        if spec.get('faults'):
+            # C06: the registry treats a service whose task died as not running
+            out['C06'] += reg
         out['C02'] += oracle_resolves(tr, status, scripts)
         out['C02'] += oracle_own_result(tr, scripts)
         return out
@@ -138,9 +152,13 @@ def evaluate(tr, status, cap, scripts, spec=None):
     if cap != 'sym':
         out['C12'] += oracle_backpressure(tr, cap, scripts)
     c05, c15 = oracle_handles(tr, status, scripts, initial='o' if (spec or {}).get('owning') else 'addr')
-    out['C05'] += c05
-    out['C15'] += c15
+    ends_by_stream = spec is not None and spec.get('stream') and any(op[0] == 'end_stream' for sc in scripts.values() for op in sc)
+    if not ends_by_stream:      # (the end of its stream is a legitimate reason for an actor to stop while handles exist)
+        out['C05'] += c05
+        out['C15'] += c15
     out['C14'] += oracle_liveness_flags(tr, scripts)
+    if spec is not None and spec.get('stream'):
+        out['C13'] += oracle_stream(tr, status, scripts)
     if spec is not None:
         if spec['started_actions']:
             out['C10'] += oracle_timers(tr, status, spec['started_actions'])
@@ -153,7 +171,7 @@ def evaluate(tr, status, cap, scripts, spec=None):
     return out
 
 
-PIDS = ('C01', 'C02', 'C04', 'C05', 'C06', 'C07', 'C08', 'C09', 'C10', 'C12', 'C14', 'C15', 'C16', 'C17')
+PIDS = ('C01', 'C02', 'C03', 'C04', 'C05', 'C06', 'C07', 'C08', 'C09', 'C10', 'C12', 'C13', 'C14', 'C15', 'C16', 'C17')
 
 
 def make_program(functions, enums, repo, spec, spawner=None):
@@ -180,7 +198,10 @@ def make_program(functions, enums, repo, spec, spawner=None):
     else:
         cls = RegistryProgram if spec['registry'] else MailboxProgram
         p = cls(sy, cap, scripts, handler_pending=hp, max_steps=spec['max_steps'], pre=pre)
+        p.stream = bool(spec.get('stream'))
     p.faults = spec['faults']
+    if spec.get('fault_targets'):
+        p.fault_targets = tuple(spec['fault_targets'])
     if spec['mt']:
         from scen_sys import mt_yield_hook
         sy.eng.yield_hook = mt_yield_hook
@@ -209,7 +230,7 @@ def run(functions, enums, repo, tier, max_steps=60, seed=0, validate=None):
     for spec in mailbox_programs(tier):
         name, cap, scripts, hp, pre = spec['name'], spec['cap'], spec['scripts'], spec['hp'], spec['pre']
         sy, p = make_program(functions, enums, repo, spec)
-        native_ok = not spec.get('entry') and not spec['broker'] and not spec['children'] and not spec['registry'] and not spec['owning'] and not spec['started_actions'] and not spec['faults'] and not spec['started'] and \
+        native_ok = not spec.get('entry') and not spec.get('stream') and not spec['broker'] and not spec['children'] and not spec['registry'] and not spec['owning'] and not spec['started_actions'] and not spec['faults'] and not spec['started'] and \
             not any(str(op[2]).startswith('panic') for sc in scripts.values() for op in sc if len(op) > 2)
         st = p.setup()
         n = 0
